@@ -107,33 +107,139 @@ fn p_hdr_roundtrip() {
 // no out-of-bounds (Kani checks these on every path), and never read past the input.
 // Lengths are concrete (one harness each) - a symbolic length did not finish (DESIGN section 8).
 // ---------------------------------------------------------------------------------------------
-macro_rules! total_scalar_value {
-    ($name:ident, $len:expr) => {
-        #[kani::proof]
-        #[kani::stub(alloc::fmt::format, fmt_stub)]
-        fn $name() {
-            let bytes: [u8; $len] = kani::any();
-            // scalar tags only (strings/temporals allocate: see P-alloc, Verus)
-            if $len > 0 { kani::assume(!matches!(bytes[0], 0x10 | 0x11 | 0x30..=0x33)); }
-            let mut rd: &[u8] = &bytes[..];
-            let r = read_sql_value(&mut rd);
-            assert!(rd.len() <= $len, "P-total#never_reads_past_input");
-            if $len == 0 { assert!(r.is_err(), "P-total#empty_is_error"); }
-            forget_res(r);
-        }
-    };
+/// one (tag, length) case: concrete tag and concrete length (case split outside the solver), arbitrary payload bytes
+macro_rules! one_len {
+    ($tag:expr, $len:expr, $need:expr) => {{
+        let mut bytes: [u8; $len] = kani::any();
+        bytes[0] = $tag;
+        let mut rd: &[u8] = &bytes[..];
+        let r = read_sql_value(&mut rd);
+        assert!(rd.len() <= $len, "P-total#never_reads_past_input");
+        if $len < $need { assert!(r.is_err(), "P-total#truncated_is_error"); } else { assert!(r.is_ok() && rd.len() == $len - $need, "P-total#complete_is_ok_exact_consumption"); }
+        forget_res(r);
+    }};
 }
-total_scalar_value!(p_total_value_len0, 0);
-total_scalar_value!(p_total_value_len1, 1);
-total_scalar_value!(p_total_value_len2, 2);
-total_scalar_value!(p_total_value_len3, 3);
-total_scalar_value!(p_total_value_len4, 4);
-total_scalar_value!(p_total_value_len5, 5);
-total_scalar_value!(p_total_value_len6, 6);
-total_scalar_value!(p_total_value_len7, 7);
-total_scalar_value!(p_total_value_len8, 8);
-total_scalar_value!(p_total_value_len9, 9);
-total_scalar_value!(p_total_value_len10, 10);
+
+#[kani::proof]
+#[kani::stub(alloc::fmt::format, fmt_stub)]
+fn p_total_value_null() {
+    one_len!(0x00, 1, 1);
+    one_len!(0x00, 2, 1);
+}
+
+#[kani::proof]
+#[kani::stub(alloc::fmt::format, fmt_stub)]
+fn p_total_value_smallint() {
+    one_len!(0x01, 1, 3);
+    one_len!(0x01, 2, 3);
+    one_len!(0x01, 3, 3);
+    one_len!(0x01, 4, 3);
+}
+
+#[kani::proof]
+#[kani::stub(alloc::fmt::format, fmt_stub)]
+fn p_total_value_integer() {
+    one_len!(0x02, 1, 9);
+    one_len!(0x02, 2, 9);
+    one_len!(0x02, 3, 9);
+    one_len!(0x02, 4, 9);
+    one_len!(0x02, 5, 9);
+    one_len!(0x02, 6, 9);
+    one_len!(0x02, 7, 9);
+    one_len!(0x02, 8, 9);
+    one_len!(0x02, 9, 9);
+    one_len!(0x02, 10, 9);
+}
+
+#[kani::proof]
+#[kani::stub(alloc::fmt::format, fmt_stub)]
+fn p_total_value_bigint() {
+    one_len!(0x03, 1, 9);
+    one_len!(0x03, 2, 9);
+    one_len!(0x03, 3, 9);
+    one_len!(0x03, 4, 9);
+    one_len!(0x03, 5, 9);
+    one_len!(0x03, 6, 9);
+    one_len!(0x03, 7, 9);
+    one_len!(0x03, 8, 9);
+    one_len!(0x03, 9, 9);
+    one_len!(0x03, 10, 9);
+}
+
+#[kani::proof]
+#[kani::stub(alloc::fmt::format, fmt_stub)]
+fn p_total_value_unsigned() {
+    one_len!(0x04, 1, 9);
+    one_len!(0x04, 2, 9);
+    one_len!(0x04, 3, 9);
+    one_len!(0x04, 4, 9);
+    one_len!(0x04, 5, 9);
+    one_len!(0x04, 6, 9);
+    one_len!(0x04, 7, 9);
+    one_len!(0x04, 8, 9);
+    one_len!(0x04, 9, 9);
+    one_len!(0x04, 10, 9);
+}
+
+#[kani::proof]
+#[kani::stub(alloc::fmt::format, fmt_stub)]
+fn p_total_value_numeric() {
+    one_len!(0x05, 1, 9);
+    one_len!(0x05, 2, 9);
+    one_len!(0x05, 3, 9);
+    one_len!(0x05, 4, 9);
+    one_len!(0x05, 5, 9);
+    one_len!(0x05, 6, 9);
+    one_len!(0x05, 7, 9);
+    one_len!(0x05, 8, 9);
+    one_len!(0x05, 9, 9);
+    one_len!(0x05, 10, 9);
+}
+
+#[kani::proof]
+#[kani::stub(alloc::fmt::format, fmt_stub)]
+fn p_total_value_float() {
+    one_len!(0x06, 1, 5);
+    one_len!(0x06, 2, 5);
+    one_len!(0x06, 3, 5);
+    one_len!(0x06, 4, 5);
+    one_len!(0x06, 5, 5);
+    one_len!(0x06, 6, 5);
+}
+
+#[kani::proof]
+#[kani::stub(alloc::fmt::format, fmt_stub)]
+fn p_total_value_real() {
+    one_len!(0x07, 1, 5);
+    one_len!(0x07, 2, 5);
+    one_len!(0x07, 3, 5);
+    one_len!(0x07, 4, 5);
+    one_len!(0x07, 5, 5);
+    one_len!(0x07, 6, 5);
+}
+
+#[kani::proof]
+#[kani::stub(alloc::fmt::format, fmt_stub)]
+fn p_total_value_double() {
+    one_len!(0x08, 1, 9);
+    one_len!(0x08, 2, 9);
+    one_len!(0x08, 3, 9);
+    one_len!(0x08, 4, 9);
+    one_len!(0x08, 5, 9);
+    one_len!(0x08, 6, 9);
+    one_len!(0x08, 7, 9);
+    one_len!(0x08, 8, 9);
+    one_len!(0x08, 9, 9);
+    one_len!(0x08, 10, 9);
+}
+
+#[kani::proof]
+#[kani::stub(alloc::fmt::format, fmt_stub)]
+fn p_total_value_boolean() {
+    one_len!(0x20, 1, 2);
+    one_len!(0x20, 2, 2);
+    one_len!(0x20, 3, 2);
+}
 
 macro_rules! total_header {
     ($name:ident, $len:expr) => {
@@ -164,7 +270,8 @@ total_header!(p_total_header_len17, 17);
 #[kani::proof]
 #[kani::stub(alloc::fmt::format, fmt_stub)]
 fn p_canary_must_fail() {
-    let bytes: [u8; 9] = kani::any();
+    let mut bytes: [u8; 5] = kani::any();
+    bytes[0] = 0x02;
     let mut rd: &[u8] = &bytes[..];
     let r = read_sql_value(&mut rd);
     assert!(r.is_ok(), "canary");
